@@ -8,7 +8,7 @@
    including partial effects before an error.  Nodes are addressed by their path from the
    root: the harness addresses every operation by a freshly looked-up path, so inode numbers,
    lookup counts and file handles are not modelled. *)
-From Coq Require Import List String NArith ZArith Bool Ascii Uint63.
+From Coq Require Import List String NArith ZArith Bool Ascii.
 Import ListNotations.
 Local Open Scope string_scope.
 Local Open Scope N_scope.
@@ -673,9 +673,22 @@ Definition do_rm (pp : path) (nm : name) (dir : bool) : M unit :=
     insert_child pp nm (new_node ri)
   else ret tt.
 
-Inductive oflag := OF_R | OF_W | OF_RW | OF_WT | OF_A.
-Definition of_readonly (f : oflag) : bool := match f with OF_R => true | _ => false end.
-Definition of_trunc (f : oflag) : bool := match f with OF_WT => true | _ => false end.
+(* the flag word of an OPEN request: access mode and the bits O_TRUNC, O_APPEND, O_CREAT, O_EXCL *)
+Inductive oacc := ARD | AWR | ARW.
+Record oflag := mkOF { of_acc : oacc; of_tr : bool; of_ap : bool; of_cr : bool; of_ex : bool }.
+Notation OF_R := (mkOF ARD false false false false).
+Notation OF_W := (mkOF AWR false false false false).
+Notation OF_RW := (mkOF ARW false false false false).
+Notation OF_WT := (mkOF AWR true false false false).
+Notation OF_A := (mkOF AWR false true false false).
+(* OverlayFs::open: readonly = flags & (O_APPEND | O_CREAT | O_TRUNC | O_RDWR | O_WRONLY) == 0  (O_EXCL does not count) *)
+Definition of_readonly (f : oflag) : bool :=
+  match of_acc f with ARD => negb (of_tr f || of_ap f || of_cr f) | _ => false end.
+(* what the host open does with the word the overlay forwards (O_CREAT is stripped when the file is re-opened
+   through /proc/self/fd, O_EXCL alone and O_APPEND change nothing at open time): O_TRUNC truncates, whatever the access mode *)
+Definition of_trunc (f : oflag) : bool := of_tr f.
+Lemma of_trunc_not_readonly f : of_trunc f = true -> of_readonly f = false.
+Proof. unfold of_trunc, of_readonly. intros ->. destruct (of_acc f); reflexivity. Qed.
 
 (* FileSystem::open followed by release *)
 Definition do_open (p : path) (fl : oflag) : M real :=
@@ -1069,129 +1082,3 @@ Definition res_eqb (r : res string) (e : N) (payload : string) : bool :=
   | Err x => (x =? e)
   end.
 Definition ser_opt (t : option tree) : string := match t with Some t => ser SER t | None => "!none" end.
-(* views and upper-layer dumps are compared through a 63-bit polynomial hash of their
-   serialisation (the literal strings are too slow to parse in bulk) *)
-Fixpoint shash (s : string) (h : int) : int :=
-  match s with
-  | EmptyString => h
-  | String c r => shash r (Uint63.add (Uint63.mul h 1000003%uint63) (Uint63.of_Z (Z.of_N (N_of_ascii c))))
-  end.
-Definition hash (s : string) : int := shash s 0%uint63.
-Definition opt_eqb (got : int) (want : option int) (prev : int) : bool :=
-  match want with Some w => Uint63.eqb got w | None => Uint63.eqb got prev end.
-Definition pick (want : option int) (prev : int) : int := match want with Some w => w | None => prev end.
-
-(* one expected step: dump?, op, errno, payload, hash of view (None = unchanged), hash of upper dump (None = unchanged) *)
-Definition expect := (bool * op * N * string * option int * option int)%type.
-Definition E (dump : bool) (o : op) (e : N) (payload : string) (v u : option int) : expect := (dump, o, e, payload, v, u).
-Definition upper_hash (s : state) : int := hash (match upper s with Some t => ser SER t | None => "" end).
-Fixpoint check_run (s : state) (pv pu : int) (es : list expect) : bool :=
-  match es with
-  | [] => true
-  | (dump, o, e, payload, v, u) :: es' =>
-      let '(r, s1) := step o s in
-      res_eqb r e payload &&
-      (if dump then
-         let s2 := load_all s1 in
-         opt_eqb (hash (ser_opt (view s2))) v pv &&
-         opt_eqb (upper_hash s2) u pu &&
-         check_run s2 (pick v pv) (pick u pu) es'
-       else check_run s1 pv pu es')
-  end.
-(* model = implementation on a whole case *)
-Definition check_case (u : option tree) (ls : list tree) (v0 : int) (es : list expect) : bool :=
-  let s0 := load_all (fresh u ls 1000) in
-  Uint63.eqb (hash (ser_opt (view s0))) v0 &&
-  check_run s0 v0 (upper_hash s0) es.
-
-(* the C10 predicate on observations: initial view = union; every step = ordinary file system step *)
-Fixpoint check_spec (s : fs) (pv : int) (es : list expect) : bool :=
-  match es with
-  | [] => true
-  | (dump, o, e, payload, v, _) :: es' =>
-      let '(r, s1) := fs_apply o s in
-      res_eqb r e payload &&
-      (if dump then opt_eqb (hash (ser SER (f_tree s1))) v pv && check_spec s1 (pick v pv) es'
-       else check_spec s1 pv es')
-  end.
-Definition check_union (u : option tree) (ls : list tree) (v0 : int) : bool :=
-  Uint63.eqb (hash (ser_opt (merge (all_layers u ls)))) v0.
-Definition check_ordinary (u : option tree) (ls : list tree) (es : list expect) : bool :=
-  match merge (all_layers u ls) with
-  | Some t => check_spec (mkFs t 1000) (hash (ser SER t)) es
-  | None => false
-  end.
-
-(* diagnostics for failing cases: the specification's / the model's view after a history *)
-Definition spec_view (u : option tree) (ls : list tree) (ops : list op) : string :=
-  match merge (all_layers u ls) with
-  | Some t => ser SER (f_tree (fold_left (fun (acc : fs) (o : op) => snd (fs_apply o acc)) ops (mkFs t 1000)))
-  | None => "!none"
-  end.
-Definition model_state (u : option tree) (ls : list tree) (ops : list (bool * op)) : state :=
-  fold_left (fun (acc : state) (o : bool * op) => let s1 := run_op (snd o) acc in if fst o then load_all s1 else s1) ops (load_all (fresh u ls 1000)).
-Definition model_view (u : option tree) (ls : list tree) (ops : list (bool * op)) : string :=
-  ser_opt (view (load_all (model_state u ls ops))).
-Definition model_upper (u : option tree) (ls : list tree) (ops : list (bool * op)) : string :=
-  match upper (model_state u ls ops) with Some t => ser SER t | None => "" end.
-Definition model_restart_view (u : option tree) (ls : list tree) (ops : list (bool * op)) : string :=
-  ser_opt (view (load_all (restart (model_state u ls ops)))).
-
-(* locating the first disagreeing step of a case (diagnostics only) *)
-Fixpoint spec_first_bad (s : fs) (pv : int) (es : list expect) (i : N) : option (N * string * string) :=
-  match es with
-  | [] => None
-  | (dump, o, e, payload, v, _) :: es' =>
-      let '(r, s1) := fs_apply o s in
-      if res_eqb r e payload && (if dump then opt_eqb (hash (ser SER (f_tree s1))) v pv else true)
-      then spec_first_bad s1 (if dump then pick v pv else pv) es' (i + 1)
-      else Some (i, ser SER (f_tree s1), match r with Ok p => p | Err x => hexN x end)
-  end.
-Definition ordinary_first_bad (u : option tree) (ls : list tree) (es : list expect) : option (N * string * string) :=
-  match merge (all_layers u ls) with
-  | Some t => spec_first_bad (mkFs t 1000) (hash (ser SER t)) es 0
-  | None => Some (0, "!none", "")
-  end.
-Fixpoint run_first_bad (s : state) (pv pu : int) (es : list expect) (i : N) : option (N * string * string * string) :=
-  match es with
-  | [] => None
-  | (dump, o, e, payload, v, u) :: es' =>
-      let '(r, s1) := step o s in
-      let s2 := if dump then load_all s1 else s1 in
-      if res_eqb r e payload &&
-         (if dump then opt_eqb (hash (ser_opt (view s2))) v pv && opt_eqb (upper_hash s2) u pu else true)
-      then run_first_bad s2 (if dump then pick v pv else pv) (if dump then pick u pu else pu) es' (i + 1)
-      else Some (i, ser_opt (view (load_all s2)), match upper s2 with Some t => ser SER t | None => "" end,
-                 match r with Ok p => p | Err x => hexN x end)
-  end.
-Definition tie_first_bad (u : option tree) (ls : list tree) (v0 : int) (es : list expect) : option (N * string * string * string) :=
-  let s0 := load_all (fresh u ls 1000) in
-  if Uint63.eqb (hash (ser_opt (view s0))) v0 then run_first_bad s0 v0 (upper_hash s0) es 0
-  else Some (0, ser_opt (view s0), "", "initial view").
-
-(* C11 correspondence: additionally the model's restarted view = the view of a second OverlayFs
-   instance built over the same directories, after every dumped step *)
-Definition restart_hash (s : state) : int := hash (ser_opt (view (load_all (restart s)))).
-Fixpoint check_run11 (s : state) (pv pu : int) (es : list expect) (rs : list (option int)) : bool :=
-  match es, rs with
-  | [], _ => true
-  | (dump, o, e, payload, v, u) :: es', r :: rs' =>
-      let '(rr, s1) := step o s in
-      res_eqb rr e payload &&
-      (if dump then
-         let s2 := load_all s1 in
-         opt_eqb (hash (ser_opt (view s2))) v pv &&
-         opt_eqb (upper_hash s2) u pu &&
-         (match r with Some h => Uint63.eqb (restart_hash s2) h | None => true end) &&
-         check_run11 s2 (pick v pv) (pick u pu) es' rs'
-       else check_run11 s1 pv pu es' rs')
-  | _ :: _, [] => false
-  end.
-Definition check_case11 (u : option tree) (ls : list tree) (v0 r0 : int) (es : list expect) (rs : list (option int)) : bool :=
-  let s0 := load_all (fresh u ls 1000) in
-  Uint63.eqb (hash (ser_opt (view s0))) v0 && Uint63.eqb (restart_hash s0) r0 &&
-  check_run11 s0 v0 (upper_hash s0) es rs.
-
-(* layer-kind pattern cases (no operations): union predicate and model = implementation in one evaluation *)
-Definition check_pattern (u : option tree) (ls : list tree) (v0 : int) : bool :=
-  check_union u ls v0 && check_case u ls v0 [].
